@@ -87,12 +87,21 @@ def main():
     with open(os.path.join(VERIF, "seeded", "RESULTS.md"), "w") as f:
         f.write("# Seeded breaking changes (written by independent sub-agents from the property text)\n\n")
         f.write("Generated by tools/seed_eval.py against the current /repo and contracts.\n\n")
-        f.write("| change | property | status | tests still pass | demo fails on patched | obligations reported / note |\n|---|---|---|---|---|---|\n")
+        first = {}
+        fr = os.path.join(VERIF, "seeded", "results_first_run.json")
+        if os.path.exists(fr):
+            first = {r["change"]: r for r in json.load(open(fr))}
+            f.write("`first run` is the verdict of the checks as they stood BEFORE the change was seen (46 of 59 caught; C20-3 arrived later and was caught by the machinery as strengthened for C20-2); every change missed then led to a strengthened contract or engine fix, listed in DESIGN.md section 8.6.\n\n")
+        f.write("| change | property | first run | now | tests still pass | demo fails on patched | obligations reported / note |\n|---|---|---|---|---|---|---|\n")
         for r in allres:
+            r = dict(r)
+            r["first"] = first.get(r["change"], {}).get("status", "-")
+            if r.get("tests_pass") is None and r["change"] in first:
+                r["tests_pass"] = first[r["change"]].get("tests_pass")
             note = ", ".join(r.get("obligations_reported", [])[:4])
             if r.get("note"):
                 note = (note + " — " if note else "") + r["note"]
-            f.write("| %s %s | %s | %s | %s | %s | %s |\n" % (r["change"], r.get("title", "").replace("|", "/"), r["property"], r.get("status"), r.get("tests_pass"), r.get("demo_fails_on_patched"), note))
+            f.write("| %s %s | %s | %s | %s | %s | %s | %s |\n" % (r["change"], r.get("title", "").replace("|", "/"), r["property"], r["first"], r.get("status"), r.get("tests_pass"), r.get("demo_fails_on_patched"), note))
     n = sum(1 for r in allres if r.get("status") == "caught")
     print("seed_eval: %d/%d caught" % (n, len(allres)))
 
